@@ -97,9 +97,13 @@ CHECKS = {
                 "of any program on the DeferredReader model, under every read schedule (short reads, Interrupted), every chunk size >= 1 "
                 "and BufReader leftovers, is an admissible abstract run on the stream its source delivers; hence every program whose "
                 "abstract runs agree returns the same result however the bytes arrive (instance proved for the SWAR scanner, whose "
-                "fast/cold choice depends on buffering). PARTIAL: answer-insensitivity of the whole DIMACS parser programs is not yet "
-                "a theorem; it is validated by running the extracted programs and the real parsers on the same re-chunked inputs (items, "
-                "error location, read calls), and AIGER/BTOR2 by the one-shot-vs-rechunked oracle on the implementation.",
+                "fast/cold choice depends on buffering). For the whole DIMACS cnf/wcnf/gcnf parsers and the solver-log parser this is "
+                "now an end-to-end theorem: all admissible runs agree (PDet, CnfProofs.v) and every admissible run finishes normally "
+                "(Hoare-style safety pass, CnfSafe.v), so for every honest source, schedule, chunk size and BufReader leftover the "
+                "concrete run returns the value of the simple run on the delivered stream (C01_dimacs_any_chunking, "
+                "C01_log_any_chunking, two-sources corollaries). The programs are tied to the code by running the extracted programs and "
+                "the real parsers on the same re-chunked inputs (items, error location, read calls). PARTIAL for AIGER/BTOR2: "
+                "one-shot-vs-rechunked oracle on the implementation.",
         "design_ref": "DESIGN.md 2/C01",
         "note": "Trusted: Coq kernel; extraction; hand transcription of text.rs/token.rs/cnf.rs/wcnf.rs/gcnf.rs/sat_solver_log.rs into "
                 "parser programs (validated differentially); Read contract; AIGER/BTOR2 parsers not modelled (oracle only).",
@@ -133,8 +137,10 @@ CHECKS = {
                 "every syntax error of the LineReader programs is generated by give_up/give_up_at/give_up_at_mark, each proved to report "
                 "the parked error instead of a location; token::eof provably refuses a failing stream; the first empty peek parks the "
                 "error; and (srun_prefix, induction over programs) any result computed without seeing the end of the delivered data is "
-                "the result on every continuation, so items before the failure equal the unfailing items. PARTIAL: the end-to-end "
-                "statement for whole parsers is validated by the fault oracle on all seven parsers and the pa stream.",
+                "the result on every continuation, so items before the failure equal the unfailing items. End to end for the DIMACS "
+                "family and solver logs (CnfSafe.v, every admissible run): a failing source never yields the clean end; the final result "
+                "is the source's error, or a syntax error found before the end of the delivered data was seen, which is then reported on "
+                "every continuation of the data; a non-failing source never yields an I/O error. PARTIAL for AIGER/BTOR2: fault oracle.",
         "design_ref": "DESIGN.md 2/C04",
         "note": "Trusted: as C01/C02. Defects D6, D8, D11, D12 (I/O error lost) were found by this check and fixed in /repo.",
         "technique": "Coq proof (reader invariant, determinism of give-up programs, prefix monotonicity by induction on programs) + "
@@ -155,9 +161,12 @@ CHECKS = {
         "text": "Coq theorems (Props/C05.v): the refill loop terminates for every source; no history over the reader API yields "
                 "undefined behaviour, an index/overflow/assert panic or non-termination; advance panics exactly when asked to pass the "
                 "buffered data; digit accumulation returns None instead of wrapping for every admissible run; binary_uint rejects more "
-                "than 8 groups; AIG renumbering terminates on every graph (cyclic or not, any depth) and never panics. PARTIAL: the "
-                "parsers' own obligations are validated by the safe oracle (debug assertions and overflow checks on, counting allocator, "
-                "time limit) on all seven parsers and by the pa stream; heap and stack are measured, not modelled.",
+                "than 8 groups; AIG renumbering terminates on every graph (cyclic or not, any depth) and never panics. End to end for "
+                "the DIMACS family and solver logs (Hoare logic over the parser-program semantics, CnfSafe.v): for every byte string and "
+                "every terminal event every admissible run ends with a value — never an advance beyond the scanned offsets, never the "
+                "column-subtraction underflow or any other panic, every loop makes progress — hence every concrete run is CDone. "
+                "PARTIAL: AIGER/BTOR2 parsers by the safe oracle (debug assertions and overflow checks on, counting allocator, time "
+                "limit); heap and stack are measured, not modelled.",
         "design_ref": "DESIGN.md 2/C05",
         "note": "Trusted: as C02/C12/C13. Defects D4, D5, D7 (overflow, unbounded pre-allocation) were found by this check and fixed.",
         "technique": "Coq proof (termination measures, safety invariants) + model/implementation correspondence + resource-measuring oracle",
@@ -166,8 +175,11 @@ CHECKS = {
         "text": "Coq theorems (Props/C06.v): every admissible run of the unsigned and signed scanner programs returns exactly the "
                 "decimal value of the digit run when it fits the type and None otherwise (never a wrapped or truncated value), with the "
                 "offset just past the run; 7-bit groups decode to the encoded number; MAX_DIMACS of every literal type (regenerated "
-                "from the source) fits the type, so the cast after the range check is lossless. PARTIAL: enforcement of declared limits "
-                "by whole parsers is validated by the limits oracle (every limit at -1/0/+1, all formats) and the pa stream.",
+                "from the source) fits the type, so the cast after the range check is lossless. Token level, every admissible run from "
+                "every state satisfying the parsers' invariant: number tokens return Ok z only for the exact decimal value within "
+                "the type; var_count, clause_group, the clause-literal and value-line loops return Ok only within the limit in force. "
+                "PARTIAL: clause-count / clean-end gating and AIGER limits are validated by the limits oracle (every limit at "
+                "-1/0/+1, all formats) and the pa stream.",
         "design_ref": "DESIGN.md 2/C06",
         "note": "Trusted: as C13; translator for MAX_DIMACS / MAX_CODE.",
         "technique": "Coq proof (exactness of scanners for all admissible runs) + translator-generated constants + limit oracle",
@@ -184,9 +196,12 @@ CHECKS = {
     "C08": {
         "text": "Coq theorems (Props/C08.v): give_up/give_up_at/give_up_at_mark are deterministic programs whose syntax error is "
                 "(current line, position - line start + 1); line_at_offset counts one line and moves the line start to cursor + "
-                "offset. PARTIAL: the invariant tying line start and line number to the LF bytes of the input across whole parsers is "
-                "validated by comparing every error location of the DIMACS family and solver logs with the model (pa stream) and by "
-                "the corruption / bounds oracle on all seven parsers. Known finding K1 (binary AIGER).",
+                "offset. End to end for the DIMACS family and solver logs (CnfSafe.v, every admissible run): every reported (line, "
+                "column) satisfies loc_ok — a genuine line start (0 or just after an LF) whose number is 1 + the LF bytes before it, "
+                "no LF between it and the reported position, position within the input, column = position - line start + 1 — with one "
+                "documented exception inside the property's bounds (a last comment line without LF counts as a line; witness pinned). "
+                "'On the offending token' is checked by the corruption oracle (decorated layouts) on all formats. PARTIAL for "
+                "AIGER/BTOR2: location oracle; known finding K1 (binary AIGER).",
         "design_ref": "DESIGN.md 2/C08",
         "note": "Trusted: as C01. Defects D2 (BTOR2 mark) and D11 (AIGER line accounting) were found by this check and fixed.",
         "technique": "Coq proof (LineReader primitives) + model/implementation correspondence + location oracle",
